@@ -63,6 +63,11 @@ def FS.read (fs : FS) : Src → Bytes
   | .target => fs.target
   | .seed k => fs.seeds.getD k []
 
+/-- a seed file that cannot be opened is a `Src.seed k` beyond the list of seed files -/
+def FS.exists (fs : FS) : Src → Bool
+  | .target => true
+  | .seed k => k < fs.seeds.length
+
 def overlaps (a b n : Nat) : Bool := n > 0 && a < b + n && b < a + n
 
 /-- result of a write into the target: the new file system, bytes copied, bytes cloned, and whether
@@ -299,14 +304,28 @@ def FSeg.validate (H : Bytes → Bytes) (fs : FS) (s : FSeg) : Bool :=
     | none => false
     | some b => H b == c.id
 
-/-- `Plan.Validate` with one worker: the first file-seed segment in plan order that fails marks
-    its seed invalid -/
-def validatePlan (H : Bytes → Bytes) (fs : FS) : List PlanItem → Option Nat
+/-- `Plan.Validate` first opens the file of every file-seed segment: the first one that cannot be
+    opened marks its seed invalid -/
+def firstUnopenable (fs : FS) : List PlanItem → Option Nat
   | [] => none
   | it :: rest =>
     match it.source with
-    | .file k seg => if seg.validate H fs then validatePlan H fs rest else some k
-    | _ => validatePlan H fs rest
+    | .file k seg => if fs.exists seg.src then firstUnopenable fs rest else some k
+    | _ => firstUnopenable fs rest
+
+def validateChunks (H : Bytes → Bytes) (fs : FS) : List PlanItem → Option Nat
+  | [] => none
+  | it :: rest =>
+    match it.source with
+    | .file k seg => if seg.validate H fs then validateChunks H fs rest else some k
+    | _ => validateChunks H fs rest
+
+/-- `Plan.Validate` with one worker: the first file-seed segment in plan order that fails marks
+    its seed invalid -/
+def validatePlan (H : Bytes → Bytes) (fs : FS) (p : List PlanItem) : Option Nat :=
+  match firstUnopenable fs p with
+  | some k => some k
+  | none => validateChunks H fs p
 
 inductive Action
   | bailOut | skip | regenerate
@@ -321,7 +340,7 @@ def regenerate (rechunk : Nat → Bytes → Option (List IChunk)) (fs : FS) : Li
   | [], _ => some []
   | s :: ss, k =>
     if s.invalid then
-      match rechunk k (fs.read s.src) with
+      match (if fs.exists s.src then rechunk k (fs.read s.src) else none) with
       | none => none
       | some cs => (regenerate rechunk fs ss (k + 1)).map ({ s with chunks := cs, invalid := false } :: ·)
     else (regenerate rechunk fs ss (k + 1)).map (s :: ·)
@@ -451,7 +470,7 @@ def runJob (cf : Cfg) (e : Env) (r : Run) (it : PlanItem) : Option Run :=
     let offset := segStart e it
     let length := segEnd e it - segStart e it
     let w : WRes := match src with
-      | .file _ seg => seg.writeInto cf.ovl r.fs offset length e.bs
+      | .file _ seg => if r.fs.exists seg.src then seg.writeInto cf.ovl r.fs offset length e.bs else .err
       | .null a b cr => nullWriteInto r.fs a b cr offset length e.bs cf.isBlank
       | .store => .err
     match w with
